@@ -38,8 +38,14 @@ STREAMS = [
                       quick_n=500, thorough_n=12000, quick_ops=40, thorough_ops=150),
     simlib.sim_stream("plain", {"kinds": [("send", 2), ("query", 1), ("search", 2)], "cancel_w": 0.06}, simprops.mon_c01,
                       quick_n=300, thorough_n=8000, quick_ops=40, thorough_ops=150),
+    simlib.sim_stream("gai", {"react_prob": 0.5, "cancel_w": 0.05, "sockfail_w": 0.06, "cache_prob": 0.5,
+                              "kinds": [("gai", 4), ("query", 1), ("send", 1)], "qtypes": [1, 1, 28]}, simprops.mon_c01,
+                      quick_n=250, thorough_n=8000, quick_ops=30, thorough_ops=120),
+    simlib.gai_sync_stream(simprops.mon_c01),
+    # front ends outside the channel model: callbacks exactly once is checked by monitors only
+    simlib.lookups_stream(lambda c, o: simprops.mon_c01(c, o) + simprops.mon_c10(c, o), quick_n=200),
 ]
 
 LEVEL_TEXT = 'Proof: Lean 4 invariants over the channel model for every history (any interleaving of API calls, replies, timer expiry, socket failures, and API calls made from inside callbacks): index/ownership well-formedness, no released query/connection/compound request is used again, no token is called back twice, cancel/destroy complete everything. Tie: the real channel is run against the model step by step on generated re-entrant histories under ASan/UBSan; monitors count callbacks per token.'
-LEVEL_NOTE = "Trusted: Lean kernel; the hand-written model's faithfulness as far as the correspondence stream exercises it (entry points raw send / query / search so far; getaddrinfo, gethostbyname, gethostbyaddr, getnameinfo are exercised by the harness under sanitizers and monitors but not yet modelled); virtual sockets, clock and RNG. Heap safety itself is observed (ASan), not proved."
+LEVEL_NOTE = "Trusted: Lean kernel; the hand-written model's faithfulness as far as the correspondence stream exercises it (entry points raw send / query / search / getaddrinfo; gethostbyname, gethostbyaddr, getnameinfo are not modelled); virtual sockets, clock and RNG. Heap safety itself is observed (ASan), not proved."
 TECHNIQUE = 'Lean 4 invariant proof over an executable channel state machine + differential trace correspondence with the real channel'
